@@ -85,7 +85,8 @@ pub fn gen_app(g: &mut Gen, depth: usize, params_used: usize, fangs_ok: bool) ->
     let id = g.next_app;
     let mut items: Vec<Item> = Vec::new();
     let mut patterns: Vec<String> = Vec::new();
-    let n_routes = if depth == 0 { 1 + t::draw(10) as usize } else { 1 + t::draw(4) as usize };
+    // a mounted application may consist of fangs (and further mounts) only: its fangs still govern everything under its prefix
+    let n_routes = if depth == 0 { 1 + t::draw(10) as usize } else if t::chance(1, 6) { 0 } else { 1 + t::draw(4) as usize };
     // a small vocabulary per application makes siblings and shared prefixes likely
     let vocab: Vec<&str> = (0..2 + t::draw(4)).map(|_| t::pick(&STATICS)).collect();
     // mounts first decide which first segments are reserved
@@ -153,7 +154,7 @@ pub fn gen_app(g: &mut Gen, depth: usize, params_used: usize, fangs_ok: bool) ->
         items.push(Item::Routes { path: lit, methods: gen_methods(g, route_params, fangs_ok) });
     }
     items.extend(mounts);
-    if items.is_empty() {
+    if items.is_empty() && (depth == 0 || n_routes > 0) {
         items.push(Item::Routes { path: "/".into(), methods: gen_methods(g, params_used, fangs_ok) });
     }
     t::shuffle(&mut items);
@@ -189,6 +190,28 @@ const PARAM_VALUES: [&str; 12] = ["42", "abc", "users", "users2", "a.b", "x-y_z"
 pub fn gen_requests(table: &appgen::Table, n: usize) -> Vec<Req> {
     let mut out = Vec::new();
     for _ in 0..n {
+        // somewhere under the prefix of a mounted application, whether or not it has a route there
+        let mounted: Vec<&appgen::MountEntry> = table.apps.iter().filter(|a| !a.prefix.is_empty()).collect();
+        if !mounted.is_empty() && t::chance(1, 6) {
+            let m = t::pick(&mounted);
+            let mut segs: Vec<String> = m.prefix.iter().map(|s| match s { Seg::Static(x) => x.clone(), Seg::Param => t::pick(&PARAM_VALUES).to_string() }).collect();
+            for _ in 0..t::weighted(&[2, 3, 1]) {
+                segs.push(t::pick(&["x", "users", "42", "a"]).to_string());
+            }
+            let method = t::pick(&["GET", "PUT", "POST", "PATCH", "DELETE", "HEAD", "OPTIONS"]).to_string();
+            let mut path = format!("/{}", segs.join("/"));
+            if t::chance(1, 6) {
+                path.push('/');
+            }
+            out.push(Req { method, path, kind: "under-mount-prefix".to_string() });
+            continue;
+        }
+        if table.routes.is_empty() {
+            // an application made of fang-only mounts: nothing is registered, everything is a miss
+            let segs: Vec<String> = (0..1 + t::draw(3)).map(|_| t::pick(&STATICS).to_string()).collect();
+            out.push(Req { method: t::pick(&["GET", "PUT", "POST", "PATCH", "DELETE", "HEAD", "OPTIONS"]).to_string(), path: format!("/{}", segs.join("/")), kind: "random-path".to_string() });
+            continue;
+        }
         let r = t::pick(&table.routes);
         let mut segs: Vec<String> = r.segs.iter().map(|s| match s { Seg::Static(x) => x.clone(), Seg::Param => t::pick(&PARAM_VALUES).to_string() }).collect();
         let registered: Vec<&String> = r.methods.keys().collect();
@@ -307,8 +330,40 @@ pub fn expectations(table: &appgen::Table, method: &str, raw_path: &str) -> (Vec
             alts.push(alt);
         }
     }
+    // a mounted application claims its prefix even where it registers nothing: the mount point may count as a static
+    // alternative (greedy descent enters it and finds no handler) or not (only registered routes are alternatives)
+    if table.apps.iter().any(|a| !a.prefix.is_empty()) {
+        let mut with_mounts: Vec<appgen::RouteEntry> = table.routes.clone();
+        for a in table.apps.iter().filter(|a| !a.prefix.is_empty()) {
+            with_mounts.push(appgen::RouteEntry { segs: a.prefix.clone(), literal: String::new(), methods: Default::default(), apps: vec![] });
+        }
+        let with_mounts_m: Vec<appgen::RouteEntry> = with_mounts.iter().filter(|r| r.methods.contains_key(m) || r.methods.is_empty()).cloned().collect();
+        for alt in [outcome_for(appgen::greedy(&with_mounts, &segs)), outcome_for(appgen::greedy(&with_mounts_m, &segs))] {
+            if !alts.contains(&alt) {
+                alts.push(alt);
+            }
+        }
+    }
     let ambiguous = alts.len() > 1;
     (alts, ambiguous)
+}
+
+/// does counting mount points as static alternatives (see `expectations`) change which route greedy descent reaches?
+pub fn mount_points_change_routing(table: &appgen::Table, segs: &[String]) -> bool {
+    if !table.apps.iter().any(|a| !a.prefix.is_empty()) {
+        return false;
+    }
+    let mut with_mounts: Vec<appgen::RouteEntry> = table.routes.clone();
+    for a in table.apps.iter().filter(|a| !a.prefix.is_empty()) {
+        with_mounts.push(appgen::RouteEntry { segs: a.prefix.clone(), literal: String::new(), methods: Default::default(), apps: vec![] });
+    }
+    let plain = appgen::greedy(&table.routes, segs).map(|r| (r.segs.clone(), r.methods.is_empty()));
+    let mounted = appgen::greedy(&with_mounts, segs).map(|r| (r.segs.clone(), r.methods.is_empty()));
+    let mounted = match mounted {
+        Some((_, true)) => None, // ended on a bare mount point
+        other => other,
+    };
+    plain != mounted
 }
 
 fn shape_hazards(table: &appgen::Table, out: &mut Outcome) {
